@@ -314,7 +314,11 @@ def allStoresCompleted (s : Stages) : Bool :=
 
 def lastStageCompleted (s : Stages) : Bool :=
   match s.mapSeg with
-  | none => true   -- (nil dereference in Go; only called when the output is an index, which has a map segmenter)
+  -- Go dereferences the nil `mapSegmenter` here: reached (and a panic, class C05/panic/nil-dereference, witness
+  -- harness/cmd/vh_c05/witness_devidx_panic.case) only by a DEVELOPMENT-mode request whose output is a block-index
+  -- module: no `WriteExecOut`, hence no mapper stage and no map segmenter.  In production mode an index output always
+  -- has one.  `true` is what a nil guard would answer (nothing to wait for); the harness does not generate that case.
+  | none => true
   | some ms =>
     (List.range' ms.firstIndex (ms.lastIndex + 1 - ms.firstIndex)).all fun seg =>
       let st := s.getState seg (s.nStages - 1)
